@@ -530,6 +530,21 @@ pub fn raster(sink: &mut Sink, seed: u64, thorough: bool) {
         let id = sink.id();
         sink.emit(&raster_event(id, &format!("rastersyn:{kind}"), &q, &[Call::Margin(2), Call::Shape(if kind < 3 { 0 } else { kind }), Call::FitWidth(5 * c)]));
     }
+    // fit sweep: EVERY requested side from 4 to 8 pixels per cell on two small symbols (any rounding slip of the scale shows at some side),
+    // and every integer scale 1..12; width, height and both
+    for (si, (v, m)) in [(1usize, 0usize), (2, 1)].into_iter().enumerate() {
+        let q = qr_of(v, seed + 3);
+        let cells = (q.size + 2 * m) as u32;
+        let sides: Vec<u32> = (4 * cells..=8 * cells).chain((1..=12).map(|k| k * cells)).collect();
+        for (i, &side) in sides.iter().enumerate() {
+            if !thorough && (i + si) % 9 != (seed % 9) as usize { continue; }
+            let fit = match i % 3 { 0 => vec![Call::FitWidth(side)], 1 => vec![Call::FitHeight(side)], _ => vec![Call::FitWidth(side), Call::FitHeight(side + 1 + (i as u32 % 5))] };
+            let mut p = vec![Call::Margin(m), Call::Shape(if side % cells == 0 { 0 } else { i % 6 })];
+            p.extend(fit);
+            let id = sink.id();
+            sink.emit(&raster_event(id, &format!("rasterfit:{v}"), &q, &p));
+        }
+    }
     // very large fit requests (tens of pixels per module even at version 40): the side must be exactly the requested one
     {
         let q1 = qr_of(1, seed);
